@@ -503,12 +503,30 @@ func runWriterSeq(c *Ctx, i int64, seq []int, conc bool) {
 	if epochNo > 1 && !hung {
 		replayEpoch(c, ep, seq, mc)
 	}
+	if !hung {
+		c17Cleanup(c, w, mc, seq)
+	}
 	c.Count("writer_sequences", 1)
 	// cell: the abstract shape of the sequence
 	c.Cell("writer/" + mc + "/" + shapeOf(seq))
 	if i%5003 == 0 {
 		c.Sample(map[string]interface{}{"object": "Writer", "mode": mc, "sequence": seqString(wOpNames, seq)})
 	}
+}
+
+// c17Cleanup closes a Writer whose history ended without Close, so that its pipeline
+// goroutine and block buffers are released (hundreds of thousands of histories run in one
+// process).  The Close is one more call of a valid history: if it never returns, that is
+// reported; its result is not judged otherwise.
+func c17Cleanup(c *Ctx, w *lz4.Writer, mc string, seq []int) {
+	if w == nil {
+		return
+	}
+	wr := c.Watch("Writer.Close", func() { _ = w.Close() })
+	if wr.Deadlocked {
+		c.Violation("deadlock/final-close/"+mc, fmt.Sprintf("Close at the end of the history never returns: every goroutine inside the library is blocked [%s ; Close]", seqString(wOpNames, seq)), map[string]interface{}{"sequence": seqString(wOpNames, seq), "mode": mc, "goroutines": wr.Dump})
+	}
+	c.Count("cleanup_closes", 1)
 }
 
 // shapeOf abstracts a writer sequence to its operation classes (A=apply,
@@ -562,8 +580,14 @@ func replayEpoch(c *Ctx, ep *wEpoch, seq []int, mc string) {
 	// start from the snapshot and skip leading Apply calls.
 	sink := &gen.Sink{Budget: 400, MaxBytes: 8 << 20}
 	var results []string
+	var w *lz4.Writer
+	defer func() {
+		if w != nil {
+			c17Cleanup(c, w, mc, nil)
+		}
+	}()
 	wr := c.Watch("replay", func() {
-		w := lz4.NewWriter(sink)
+		w = lz4.NewWriter(sink)
 		if err := w.Apply(ep.snapshot.options()...); err != nil {
 			results = append(results, "apply-failed")
 			return
